@@ -19,11 +19,12 @@ def Univ.has (u : Univ) : Task → Prop
   | .reqName m n => m ∈ u.mods ∧ n ∈ u.names
   | .local m l => m ∈ u.mods ∧ l ∈ u.names
   | .decl m n => m ∈ u.mods ∧ n ∈ u.names
+  | .qual m l x => m ∈ u.mods ∧ l ∈ u.names ∧ x ∈ u.names
 
 def Univ.tasks (u : Univ) : List Task :=
   u.mods.flatMap fun m =>
     [Task.reqAll m true, Task.reqAll m false] ++
-      u.names.flatMap fun n => [Task.reqName m n, Task.local m n, Task.decl m n]
+      u.names.flatMap fun n => [Task.reqName m n, Task.local m n, Task.decl m n] ++ u.names.map fun x => Task.qual m n x
 
 theorem Univ.mem_tasks (u : Univ) (t : Task) (h : u.has t) : t ∈ u.tasks := by
   unfold Univ.tasks
@@ -43,15 +44,21 @@ theorem Univ.mem_tasks (u : Univ) (t : Task) (h : u.has t) : t ∈ u.tasks := by
     refine List.mem_flatMap.mpr ⟨m, h.1, ?_⟩
     simp only [List.mem_append, List.mem_flatMap]
     exact Or.inr ⟨n, h.2, by simp⟩
+  | qual m l x =>
+    refine List.mem_flatMap.mpr ⟨m, h.1, ?_⟩
+    simp only [List.mem_append, List.mem_flatMap]
+    exact Or.inr ⟨l, h.2.1, by simp [h.2.2]⟩
 
 /-- the universe is closed under everything a module of it mentions -/
 def ClosedU (w : World) (u : Univ) : Prop :=
   ∀ m ∈ u.mods,
-    (∀ d ∈ (w.mod m).decls, d.name ∈ u.names ∧ ∀ r ∈ d.refs, r ∈ u.names) ∧
+    (∀ d ∈ (w.mod m).decls, d.name ∈ u.names ∧ (∀ r ∈ d.refs, r ∈ u.names) ∧
+      ∀ q ∈ d.qrefs, q.1 ∈ u.names ∧ q.2 ∈ u.names) ∧
     (∀ p ∈ (w.mod m).imports, p.2.1 ∈ u.mods ∧ p.2.2 ∈ u.names) ∧
     (∀ p ∈ (w.mod m).exportFrom, p.2.1 ∈ u.mods ∧ p.2.2 ∈ u.names) ∧
     (∀ x ∈ (w.mod m).stars, x ∈ u.mods) ∧
-    (∀ p ∈ (w.mod m).exportLocal, p.2 ∈ u.names)
+    (∀ p ∈ (w.mod m).exportLocal, p.2 ∈ u.names) ∧
+    (∀ p ∈ (w.mod m).nsImports, p.2 ∈ u.mods)
 
 def WorkIn (u : Univ) (s : State) : Prop := ∀ t ∈ s.work, u.has t
 
@@ -77,7 +84,7 @@ theorem stepReqAll_done (w : World) (s : State) (m : Nat) (wd : Bool) : (stepReq
 
 theorem workIn_stepReqAll (w : World) (u : Univ) (hu : ClosedU w u) (s : State) (m : Nat) (wd : Bool)
     (hm : m ∈ u.mods) (h : WorkIn u s) : WorkIn u (stepReqAll w s m wd) := by
-  obtain ⟨hd, _, hf, hs, hl⟩ := hu m hm
+  obtain ⟨hd, _, hf, hs, hl, _⟩ := hu m hm
   intro t ht
   rw [stepReqAll_work] at ht
   simp only [List.mem_append, List.mem_map, List.mem_filter] at ht
@@ -101,7 +108,7 @@ theorem stepReqName_done (w : World) (s : State) (m n : Nat) : (stepReqName w s 
 
 theorem workIn_stepReqName (w : World) (u : Univ) (hu : ClosedU w u) (s : State) (m n : Nat)
     (hm : m ∈ u.mods) (hn : n ∈ u.names) (h : WorkIn u s) : WorkIn u (stepReqName w s m n) := by
-  obtain ⟨hd, _, hf, hs, hl⟩ := hu m hm
+  obtain ⟨hd, _, hf, hs, hl, _⟩ := hu m hm
   unfold stepReqName
   simp only
   split
@@ -144,11 +151,36 @@ theorem stepLocal_done (w : World) (s : State) (m l : Nat) : (stepLocal w s m l)
   simp only
   split
   · rfl
-  · split <;> rfl
+  · split
+    · rfl
+    · split <;> rfl
+
+theorem stepQual_done (w : World) (s : State) (m l x : Nat) : (stepQual w s m l x).done = s.done := by
+  unfold stepQual
+  simp only
+  split <;> rfl
+
+theorem workIn_stepQual (w : World) (u : Univ) (hu : ClosedU w u) (s : State) (m l x : Nat)
+    (hm : m ∈ u.mods) (hl : l ∈ u.names) (hx : x ∈ u.names) (h : WorkIn u s) : WorkIn u (stepQual w s m l x) := by
+  obtain ⟨_, _, _, _, _, hns⟩ := hu m hm
+  unfold stepQual
+  simp only
+  split
+  · rename_i p hfp
+    refine workIn_append h [.reqName p.2 x] ?_ _ rfl
+    intro t ht
+    simp only [List.mem_singleton] at ht
+    subst ht
+    exact ⟨hns p (find?_mem' _ _ _ hfp), hx⟩
+  · refine workIn_append h [.local m l] ?_ _ rfl
+    intro t ht
+    simp only [List.mem_singleton] at ht
+    subst ht
+    exact ⟨hm, hl⟩
 
 theorem workIn_stepLocal (w : World) (u : Univ) (hu : ClosedU w u) (s : State) (m l : Nat)
     (hm : m ∈ u.mods) (h : WorkIn u s) : WorkIn u (stepLocal w s m l) := by
-  obtain ⟨hd, hi, _, _, _⟩ := hu m hm
+  obtain ⟨hd, hi, _, _, _, hns⟩ := hu m hm
   unfold stepLocal
   simp only
   split
@@ -165,7 +197,14 @@ theorem workIn_stepLocal (w : World) (u : Univ) (hu : ClosedU w u) (s : State) (
       simp only [List.mem_singleton] at ht
       subst ht
       exact hi p (find?_mem' _ _ _ hfp)
-    · exact h
+    · split
+      · rename_i p hfp
+        refine workIn_append h [.reqAll p.2 false] ?_ _ rfl
+        intro t ht
+        simp only [List.mem_singleton] at ht
+        subst ht
+        exact hns p (find?_mem' _ _ _ hfp)
+      · exact h
 
 theorem stepDecl_done (w : World) (s : State) (m n : Nat) : (stepDecl w s m n).done = s.done := by
   unfold stepDecl
@@ -174,16 +213,18 @@ theorem stepDecl_done (w : World) (s : State) (m n : Nat) : (stepDecl w s m n).d
 
 theorem workIn_stepDecl (w : World) (u : Univ) (hu : ClosedU w u) (s : State) (m n : Nat)
     (hm : m ∈ u.mods) (h : WorkIn u s) : WorkIn u (stepDecl w s m n) := by
-  obtain ⟨hd, _, _, _, _⟩ := hu m hm
+  obtain ⟨hd, _, _, _, _, _⟩ := hu m hm
   unfold stepDecl
   simp only
   split
   · rename_i d hfd
-    refine workIn_append h (d.refs.map fun r => Task.local m r) ?_ _ rfl
+    refine workIn_append h ((d.refs.map fun r => Task.local m r) ++ d.qrefs.map fun q => Task.qual m q.1 q.2) ?_ _
+      (by simp [List.append_assoc])
     intro t ht
-    simp only [List.mem_map] at ht
-    obtain ⟨r, hr, rfl⟩ := ht
-    exact ⟨hm, (hd d (find?_mem' _ _ _ hfd)).2 r hr⟩
+    simp only [List.mem_append, List.mem_map] at ht
+    rcases ht with ⟨r, hr, rfl⟩ | ⟨q, hq, rfl⟩
+    · exact ⟨hm, (hd d (find?_mem' _ _ _ hfd)).2.1 r hr⟩
+    · exact ⟨hm, (hd d (find?_mem' _ _ _ hfd)).2.2 q hq⟩
   · exact h
 
 /-- a step keeps the queue inside the universe … -/
@@ -198,6 +239,7 @@ theorem workIn_step (w : World) (u : Univ) (hu : ClosedU w u) (s : State) (t : T
     | reqName m n => exact workIn_stepReqName w u hu _ m n ht.1 ht.2 h'
     | «local» m l => exact workIn_stepLocal w u hu _ m l ht.1 h'
     | decl m n => exact workIn_stepDecl w u hu _ m n ht.1 h'
+    | qual m l x => exact workIn_stepQual w u hu _ m l x ht.1 ht.2.1 ht.2.2 h'
 
 /-- … and marks exactly the task as processed -/
 theorem step_done (w : World) (s : State) (t : Task) :
@@ -210,6 +252,7 @@ theorem step_done (w : World) (s : State) (t : Task) :
     | reqName m n => exact stepReqName_done w _ m n
     | «local» m l => exact stepLocal_done w _ m l
     | decl m n => exact stepDecl_done w _ m n
+    | qual m l x => exact stepQual_done w _ m l x
 
 /-- tasks of the universe not processed yet -/
 def todo (u : Univ) (done : List Task) : Nat := (u.tasks.filter fun t => !done.contains t).length
@@ -339,10 +382,10 @@ theorem run_fuel_mono (w : World) : ∀ (fuel : Nat) (s r : State), run w fuel s
 /-! ## a closed universe exists for every package -/
 
 def modNums (md : Mod) : List Nat :=
-  md.imports.map (·.2.1) ++ md.exportFrom.map (·.2.1) ++ md.stars
+  md.imports.map (·.2.1) ++ md.exportFrom.map (·.2.1) ++ md.stars ++ md.nsImports.map (·.2)
 
 def modNames (md : Mod) : List Nat :=
-  md.decls.flatMap (fun d => d.name :: d.refs) ++ md.imports.map (·.2.2) ++ md.exportFrom.map (·.2.2) ++
+  md.decls.flatMap (fun d => d.name :: d.refs ++ d.qrefs.flatMap fun q => [q.1, q.2]) ++ md.imports.map (·.2.2) ++ md.exportFrom.map (·.2.2) ++
     md.exportLocal.map (·.2)
 
 /-- every module number and every name the package mentions -/
@@ -351,7 +394,7 @@ def univOf (w : World) (entries : List Nat) : Univ :=
     names := 0 :: w.flatMap modNames }
 
 theorem mod_mem_or_empty (w : World) (m : Nat) :
-    w.mod m ∈ w ∨ w.mod m = { decls := [], imports := [], exportFrom := [], stars := [], exportLocal := [] } := by
+    w.mod m ∈ w ∨ w.mod m = { decls := [], imports := [], exportFrom := [], stars := [], exportLocal := [], nsImports := [] } := by
   unfold World.mod
   by_cases h : m < w.length
   · left
@@ -370,9 +413,9 @@ theorem closed_univOf (w : World) (entries : List Nat) : ClosedU w (univOf w ent
       intro x hx
       simp only [univOf, List.mem_cons, List.mem_flatMap]
       exact Or.inr ⟨w.mod m, hmem, hx⟩
-    refine ⟨?_, ?_, ?_, ?_, ?_⟩
+    refine ⟨?_, ?_, ?_, ?_, ?_, ?_⟩
     · intro d hd
-      constructor
+      refine ⟨?_, ?_, ?_⟩
       · apply hname
         simp only [modNames, List.mem_append, List.mem_flatMap]
         exact Or.inl (Or.inl (Or.inl ⟨d, hd, by simp⟩))
@@ -380,11 +423,19 @@ theorem closed_univOf (w : World) (entries : List Nat) : ClosedU w (univOf w ent
         apply hname
         simp only [modNames, List.mem_append, List.mem_flatMap]
         exact Or.inl (Or.inl (Or.inl ⟨d, hd, by simp [hr]⟩))
+      · intro q hq
+        constructor
+        · apply hname
+          simp only [modNames, List.mem_append, List.mem_flatMap]
+          exact Or.inl (Or.inl (Or.inl ⟨d, hd, Or.inr ⟨q, hq, List.mem_cons_self⟩⟩))
+        · apply hname
+          simp only [modNames, List.mem_append, List.mem_flatMap]
+          exact Or.inl (Or.inl (Or.inl ⟨d, hd, Or.inr ⟨q, hq, List.mem_cons_of_mem _ List.mem_cons_self⟩⟩))
     · intro p hp
       constructor
       · apply hnum
         simp only [modNums, List.mem_append, List.mem_map]
-        exact Or.inl (Or.inl ⟨p, hp, rfl⟩)
+        exact Or.inl (Or.inl (Or.inl ⟨p, hp, rfl⟩))
       · apply hname
         simp only [modNames, List.mem_append, List.mem_map]
         exact Or.inl (Or.inl (Or.inr ⟨p, hp, rfl⟩))
@@ -392,20 +443,24 @@ theorem closed_univOf (w : World) (entries : List Nat) : ClosedU w (univOf w ent
       constructor
       · apply hnum
         simp only [modNums, List.mem_append, List.mem_map]
-        exact Or.inl (Or.inr ⟨p, hp, rfl⟩)
+        exact Or.inl (Or.inl (Or.inr ⟨p, hp, rfl⟩))
       · apply hname
         simp only [modNames, List.mem_append, List.mem_map]
         exact Or.inl (Or.inr ⟨p, hp, rfl⟩)
     · intro x hx
       apply hnum
       simp only [modNums, List.mem_append]
-      exact Or.inr hx
+      exact Or.inl (Or.inr hx)
     · intro p hp
       apply hname
       simp only [modNames, List.mem_append, List.mem_map]
       exact Or.inr ⟨p, hp, rfl⟩
+    · intro p hp
+      apply hnum
+      simp only [modNums, List.mem_append, List.mem_map]
+      exact Or.inr ⟨p, hp, rfl⟩
   · rw [hempty]
-    refine ⟨?_, ?_, ?_, ?_, ?_⟩ <;> intro x hx <;> cases hx
+    refine ⟨?_, ?_, ?_, ?_, ?_, ?_⟩ <;> intro x hx <;> cases hx
 
 /-- **the tracer terminates on every package from every set of entry points** -/
 theorem trace_terminates (w : World) (entries : List Nat) : ∃ fuel r, trace w entries fuel = some r := by
